@@ -28,8 +28,15 @@ def gen_lt(rng):
     """(rate, accel, T) with |rate_k| <= 2^31-1 for k = 1..T; families hit the boundaries of the clear rule."""
     for _ in range(100):
         T = pick_T(rng)
-        fam = rng.choice(["zero_first_tick", "edge", "small", "uniform", "const", "boundary_total"])
-        if fam == "const":
+        fam = rng.choice(["zero_first_tick", "edge", "small", "uniform", "const", "boundary_total", "double_band"])
+        if fam == "double_band":
+            # totals of 2^51 .. 2^55 accumulator units with half-integer intermediate terms (odd accel, odd tick count): the band in which
+            # double-precision arithmetic starts to lose the last bit while the result still looks plausible
+            T = rng.randint(2**19, 2**24) | rng.choice([1, 1, 1, 0])
+            tot = int(2 ** rng.uniform(51, 55))
+            rate = rng.choice([1, -1]) * min(M - 2**22, tot // T)
+            accel = rng.choice([1, -1, 3, -3, 5, 7, -9, 11, -13, 2, 0, rng.randint(-99, 99)])
+        elif fam == "const":
             accel = 0
             rate = rng.choice([0, 1, -1, M, -M, -B, rng.randint(-M, M)])
         elif fam == "small":
@@ -70,8 +77,16 @@ def gen_t3(rng):
     """(T, rate, accel, jerk) in the firmware-valid domain; vertex families for the rate parabola."""
     for _ in range(200):
         T = pick_T(rng)
-        fam = rng.choice(["small", "zero_jerk", "vertex_inside", "vertex_edge", "uniform", "zero_first", "zero_first_two", "equal_ends", "vertex_mid"])
-        if fam == "small":
+        fam = rng.choice(["small", "zero_jerk", "vertex_inside", "vertex_edge", "uniform", "zero_first", "zero_first_two", "equal_ends", "vertex_mid", "double_band"])
+        if fam == "double_band":
+            # totals of 2^51 .. 2^55 with half- and sixth-integer intermediate terms (odd accel, jerk not a multiple of 6, odd tick count)
+            T = rng.randint(2**19, 2**23) | rng.choice([1, 1, 1, 0])
+            tot = int(2 ** rng.uniform(51, 55))
+            rate = rng.choice([1, -1]) * min(M - 2**24, tot // T)
+            accel = rng.choice([1, -1, 3, -3, 5, 7, -9, 11, 2, 0, rng.randint(-99, 99)])
+            jerk = rng.choice([0, 0, 1, -1, 3, -3, 2, 5])
+            if abs(jerk) * T * T > 2**24: jerk = 0
+        elif fam == "small":
             jerk = rng.randint(-12, 12); accel = rng.randint(-60, 60); rate = rng.randint(-500, 500)
         elif fam == "zero_jerk":
             rate, accel, T, _ = gen_lt(rng); jerk = 0
